@@ -381,12 +381,13 @@ def mk_atoms(facts):
     return atoms
 
 
-def explore(stmts, atoms, names=(), upto=None, max_paths=20000, exceptions=False):
+def explore(stmts, atoms, names=(), upto=None, max_paths=20000, exceptions=False, env0=None):
     """Feasible control-flow paths of `stmts` under the 3-valued atom valuation `atoms(expr)` (branches whose test evaluates to a constant are
     pruned; constants assigned to plain locals on the path are tracked, so `flag = True ... if flag:` is followed).  Returns one dict per
     path: kind ('return'/'raise'/'fall'/'continue'/'break' or 'upto'), stmt (the terminating Return/Raise statement or None),
     calls (source of every call evaluated, in order), stores ((target, value, kind) of every attribute / item assignment, in order), env (name -> last assigned value expression for `names`, or all plain locals when
-    names is None), path (for messages)."""
+    names is None), consts (name -> constant value known at the end of the path; `env0` gives initial constants, e.g. one concrete value per
+    symbol of a small finite domain), path (for messages)."""
     from .cfg import CFG, eval3, UNK
     cfg = CFG(stmts, exceptions=exceptions)
     stop_ids = set(cfg_nodes_containing(cfg, upto)) if upto is not None else set()
@@ -401,7 +402,7 @@ def explore(stmts, atoms, names=(), upto=None, max_paths=20000, exceptions=False
             if v is not UNK and bool(v) != (label == 'true'):
                 return None
         if node.id in stop_ids:
-            res.append({'kind': 'upto', 'stmt': None, 'calls': calls, 'env': env, 'path': None, 'stores': stores})
+            res.append({'kind': 'upto', 'stmt': None, 'calls': calls, 'env': env, 'path': None, 'stores': stores, 'consts': cenv})
             return None
         cs = tuple(src(c) for c in sorted(node_calls(node), key=lambda c: (c.lineno, c.col_offset))) if label in ('', 'next', 'true', 'false', 'body', 'exit', 'loop', 'iter') or True else ()
         if node.kind == 'test' and label == 'false':
@@ -411,7 +412,7 @@ def explore(stmts, atoms, names=(), upto=None, max_paths=20000, exceptions=False
             nm = node.ast.targets[0].id
             val = node.ast.value
             cenv = dict(cenv)
-            cenv[nm] = val.value if isinstance(val, ast.Constant) else (cenv.get(val.id, UNK) if isinstance(val, ast.Name) else UNK)
+            cenv[nm] = val.value if isinstance(val, ast.Constant) else eval3(val, cenv, atoms)
             if names is None or nm in names:
                 env = dict(env)
                 env[nm] = val
@@ -436,10 +437,10 @@ def explore(stmts, atoms, names=(), upto=None, max_paths=20000, exceptions=False
         if node.kind == 'stmt' and isinstance(node.ast, (ast.Return, ast.Raise)):
             last = node.ast
         return (cenv, env, calls, last, stores)
-    for p, (cenv, env, calls, last, stores) in cfg.paths(state0=({}, {}, (), None, ()), step=step, max_paths=max_paths):
+    for p, (cenv, env, calls, last, stores) in cfg.paths(state0=(dict(env0 or {}), {}, (), None, ()), step=step, max_paths=max_paths):
         kind = cfg.nodes[p[-1][0]].info
         if upto is None:
-            res.append({'kind': kind, 'stmt': last if kind in ('return', 'raise') else None, 'calls': calls, 'env': env, 'path': cfg.fmt_path(p), 'stores': stores})
+            res.append({'kind': kind, 'stmt': last if kind in ('return', 'raise') else None, 'calls': calls, 'env': env, 'path': cfg.fmt_path(p), 'stores': stores, 'consts': cenv})
     return res
 
 
